@@ -150,8 +150,33 @@ def build_tx(coin, shape, n_out=2, version=1, lock_time=0, seq=None):
 
 # ---------------------------------------------------------------- the signing mechanisms
 
+_RECKC = {}
+
+
+def _recording_keychain_class(N):
+    """Keychain subclass that logs every get(): reads are the only thing besides the add_* calls
+    that can change a keychain's state (its cache), so (adds + gets) replayed in order on a new
+    object reproduce a long-lived keychain exactly - which is how a session is cloned (the sqlite
+    connection inside cannot be deep-copied)."""
+    base = N.keychain
+    if base not in _RECKC:
+        class RecordingKeychain(base):
+            def get(self, h160, default=None):
+                self._verif_log.append(("get", h160))
+                return base.get(self, h160, default)
+        _RECKC[base] = RecordingKeychain
+    return _RECKC[base]
+
+
+def _index_collection(ic, idx):
+    if ic == "none":
+        return None
+    return {"set": set, "list": list, "tuple": tuple}[ic](idx)
+
+
 class Session(object):
-    """one behaviour: the transaction plus the long-lived keychain of non-fresh keychain passes"""
+    """one behaviour: the transaction plus ONE long-lived keychain object (keychain passes with
+    fresh = FALSE and the kc_add steps all talk to the same object)"""
 
     def __init__(self, coin, shape, n_out=2, tx=None, puzzles=None):
         self.coin = coin
@@ -160,12 +185,16 @@ class Session(object):
         if tx is None:
             tx, puzzles = build_tx(coin, shape, n_out=n_out)
         self.tx, self.puzzles = tx, puzzles
-        self._kc_content = None
+        self.kc = None
+        self.kc_log = []                 # ("add", reg, sec, scr) / ("get", h160), in order
+        self.kc_content = (frozenset(), frozenset(), False)
+        self.same_as_fresh = True
 
     def clone(self):
         s = copy.copy(self)
         s.tx = copy.deepcopy(self.tx)
-        # (a sqlite-backed keychain cannot be deep-copied: it is rebuilt from its recorded content)
+        s.kc = None                      # rebuilt on demand by replaying kc_log
+        s.kc_log = list(self.kc_log)
         return s
 
     def _scripts(self):
@@ -174,35 +203,57 @@ class Session(object):
             out += pz.scripts
         return out
 
-    def _keychain(self, p):
-        content = None if p["fresh"] else self._kc_content
-        reg = set(p["reg"]) | (content[0] if content else set())
-        sec = set(p["sec"]) | (content[1] if content else set())
-        scr = bool(p["scr"]) or (content[2] if content else False)
-        self._kc_content = (reg, sec, scr)
-        kc = self.net.keychain()
+    def _new_kc(self):
+        kc = _recording_keychain_class(self.net)()
+        kc._verif_log = []
+        return kc
+
+    def _kc_add_to(self, kc, reg, sec, scr):
         for f, master in self.ring.masters.items():
-            paths = [path_of(k) for k in sorted(reg) if master_of(k) == f]
-            # hardened paths can only be derived (and registered) from the private node; when the
-            # private node is not to be available, hand the keychain the hash160 rows directly
-            if f in sec:
-                kc.add_key_paths(master, paths)
-            else:
-                pub = master.public_copy()
-                for path in paths:
-                    if "H" in path:
-                        h160 = master.subkey_for_path(path).hash160()
-                        kc._exec_sql("insert or ignore into HASH160 values (?, ?, ?)", h160, path, master.fingerprint())
-                    else:
-                        kc.add_key_paths(pub, [path])
-        kc.add_secrets([self.ring.masters[f] for f in sorted(sec)])
+            for k in sorted(reg):
+                if master_of(k) != f:
+                    continue
+                path = path_of(k)
+                # registering a path needs no secret: through the public node where derivation allows it
+                node = master if ("H" in path or k % 2) else master.public_copy()
+                kc.add_key_paths(node, [path])
+        if sec:
+            kc.add_secrets([self.ring.masters[f] for f in sorted(sec)])
         if scr:
             kc.add_p2s_scripts(self._scripts())
-        return kc
+
+    def _live_kc(self):
+        if self.kc is None:
+            kc = self._new_kc()
+            for op in self.kc_log:
+                if op[0] == "add":
+                    self._kc_add_to(kc, op[1], op[2], op[3])
+                else:
+                    kc.get(op[1])
+            kc._verif_log = []
+            self.kc = kc
+        return self.kc
+
+    def _flush_gets(self):
+        if self.kc is not None:
+            self.kc_log += self.kc._verif_log
+            self.kc._verif_log = []
+
+    def kc_add(self, reg, sec, scr, fresh=False):
+        if fresh:
+            self.kc, self.kc_log, self.kc_content = None, [], (frozenset(), frozenset(), False)
+        kc = self._live_kc()
+        self._kc_add_to(kc, reg, sec, scr)
+        self.kc_log.append(("add", tuple(sorted(reg)), tuple(sorted(sec)), bool(scr)))
+        c = self.kc_content
+        self.kc_content = (c[0] | frozenset(reg), c[1] | frozenset(sec), c[2] or bool(scr))
 
     def sign(self, p):
         N = self.net
-        idx = sorted(i - 1 for i in p["I"])
+        if p["mech"] == "kc_add":
+            self.kc_add(p["reg"], p["sec"], p["scr"])
+            return
+        idx = _index_collection(p["ic"], sorted(i - 1 for i in p["I"]))
         ht = p["ht"]
         mech = p["mech"]
         p2sh = N.tx.solve.build_p2sh_lookup(self._scripts()) if p["scr"] else None
@@ -213,9 +264,20 @@ class Session(object):
             wifs = [self.ring.wif(k, "c" if k % 2 else "u") for k in sorted(p["K"])]
             N.tx_utils.sign_tx(self.tx, wifs=wifs, tx_in_idx_set=idx, hash_type=ht, p2sh_lookup=p2sh)
         elif mech == "keychain":
-            kc = self._keychain(p)
-            # the keychain serves both as the key table and as the script table (as the tx tool does)
-            self.tx.Solver(self.tx).sign(kc, tx_in_idx_set=idx, hash_type=ht, p2sh_lookup=kc)
+            self.kc_add(p["reg"], p["sec"], p["scr"], fresh=p["fresh"])
+            kc = self._live_kc()
+            # the same pass on a copy of the transaction with a FRESH keychain given the same contents
+            twin = copy.deepcopy(self.tx)
+            fresh_kc = self._new_kc()
+            self._kc_add_to(fresh_kc, *self.kc_content)
+            try:
+                # the keychain serves both as the key table and as the script table (as the tx tool does)
+                self.tx.Solver(self.tx).sign(kc, tx_in_idx_set=idx, hash_type=ht, p2sh_lookup=kc)
+            finally:
+                self._flush_gets()
+            twin.Solver(twin).sign(fresh_kc, tx_in_idx_set=_index_collection(p["ic"], sorted(i - 1 for i in p["I"])),
+                                   hash_type=ht, p2sh_lookup=fresh_kc)
+            self.same_as_fresh = all(unlocking_of(self.tx, i) == unlocking_of(twin, i) for i in range(len(twin.txs_in)))
         else:
             raise ValueError(mech)
 
@@ -588,7 +650,8 @@ class Recorder(object):
         mech = "lookup" if isinstance(lookup, dict) else "wifs"
         return {"s": s, "unl": [unlocking_of(tx, i) for i in range(n)],
                 "e": {"mech": mech, "K": sorted(K), "I": [i + 1 for i in I], "ht": 1 if hash_type is None else hash_type,
-                      "scr": (all(have) if have else True), "reg": [], "sec": [], "fresh": True}}
+                      "scr": (all(have) if have else True), "reg": [], "sec": [], "fresh": True, "same_as_fresh": True,
+                      "ic": "none" if idx_set is None else {set: "set", frozenset: "set", tuple: "tuple"}.get(type(idx_set), "list")}}
 
     def after(self, tok):
         if tok is None:
